@@ -69,7 +69,7 @@ theorem done_goodPods (hs : NSC h j) (hz : muPods j = 0) :
     rw [List.mem_map] at hp
     obtain ⟨c, hcm, rfl⟩ := hp
     obtain ⟨a1, a2, a3, a4⟩ := h1 c hcm
-    refine ⟨a2, a3, (hs.norm.pods c hcm).2.2.2.2.2.2.1, a1, ?_⟩
+    refine ⟨a2, a3, (hs.norm.pods c hcm).2.2.2.2.2.1, a1, ?_⟩
     intro hnod
     exact a4 (hs.norm.spec.strat.resolve_right hnod)
   · intro o ho
@@ -303,7 +303,7 @@ theorem fix_final (hs : NSC h j) (hz : muPods j = 0) (hfix : Fix hs.norm) : Fina
     rw [podsFinal_iff]
     refine ⟨?_, ?_, ?_, ?_⟩
     · intro c hcm _
-      obtain ⟨a1, a2, a3, a4, a5, a6, a7, a8⟩ := hn.pods c hcm
+      obtain ⟨a1, a2, a3, a4, a5, a7, a8⟩ := hn.pods c hcm
       obtain ⟨b1, b2, b3, b4⟩ := hp1 c hcm
       refine ⟨a3, a2, a4, (mem_desired_iff hn _).2 b1, b2, b3, a7, ?_⟩
       intro hroll hpt
